@@ -154,31 +154,41 @@ def walk (t : SNode Str) (hostname : Option Str) : Option (List Str × Int) :=
 
 def dot : Str := ['.']
 
-/-- `SuffixTrie.split(url)` -/
-def split (t : SNode Str) (hostname : Option Str) : Option (Str × Str) :=
-  match walk t hostname with
+/-- what `split` does with the result of `__walk` -/
+def splitOf (w : Option (List Str × Int)) : Option (Str × Str) :=
+  match w with
   | none => none
   | some (parts, offset) =>
     if offset < 0 then some ([], join dot parts)
     else some (join dot (parts.take offset.toNat), join dot (parts.drop offset.toNat))
 
-/-- `SuffixTrie.has_valid_domain_name(url)` -/
-def hasValidDomainName (t : SNode Str) (hostname : Option Str) : Bool :=
-  (walk t hostname).isSome
-
-/-- `SuffixTrie.extract_suffix(url)` -/
-def extractSuffix (t : SNode Str) (hostname : Option Str) : Option Str :=
-  match walk t hostname with
+/-- what `extract_suffix` does with the result of `__walk` -/
+def suffixOf (w : Option (List Str × Int)) : Option Str :=
+  match w with
   | none => none
   | some (parts, offset) =>
     if offset < 0 then some (join dot parts) else some (join dot (parts.drop offset.toNat))
 
-/-- `SuffixTrie.extract_domain_name(url)`: `parts[offset - 1:]` (`offset ≥ 1` here) -/
-def extractDomainName (t : SNode Str) (hostname : Option Str) : Option Str :=
-  match walk t hostname with
+/-- what `extract_domain_name` does with the result of `__walk`: `parts[offset - 1:]`
+(`offset ≥ 1` here) -/
+def domainOf (w : Option (List Str × Int)) : Option Str :=
+  match w with
   | none => none
   | some (parts, offset) =>
     if offset < 0 then some (join dot parts) else some (join dot (parts.drop (offset - 1).toNat))
+
+/-- `SuffixTrie.split(url)` -/
+def split (t : SNode Str) (hostname : Option Str) : Option (Str × Str) := splitOf (walk t hostname)
+
+/-- `SuffixTrie.has_valid_domain_name(url)` -/
+def hasValidDomainName (t : SNode Str) (hostname : Option Str) : Bool := (walk t hostname).isSome
+
+/-- `SuffixTrie.extract_suffix(url)` -/
+def extractSuffix (t : SNode Str) (hostname : Option Str) : Option Str := suffixOf (walk t hostname)
+
+/-- `SuffixTrie.extract_domain_name(url)` -/
+def extractDomainName (t : SNode Str) (hostname : Option Str) : Option Str :=
+  domainOf (walk t hostname)
 
 end SuffixTrie
 end Ural
